@@ -117,8 +117,10 @@ def compat_str(s: Union[str, bytes]) -> Union[str, bytes]:
 # Hashing a tuple costs time proportional to its size *as a tree*: CPython does not
 # cache tuple hashes.  Marshal's reference table (TYPE_REF) lets a few hundred bytes
 # describe a tuple that refers twice to a tuple that refers twice to ... - a tree of
-# 2**n nodes.  Refuse to hash such a thing instead of hanging.
-MAX_HASHED_NODES = 1000000
+# 2**n nodes.  Refuse to hash such a thing instead of hanging.  The budget is
+# generous: compilers merge equal sub-tuples too, and a real 50 KB source file
+# can yield a constant of a million tree nodes.
+MAX_HASHED_NODES = 50000000
 # tuple hashing recurses in C, without a recursion check
 MAX_HASHED_DEPTH = 200
 
